@@ -228,10 +228,22 @@ def _q(q):
     return q[0] / q[1]
 
 
-def to_script(world):
-    """Build every model of the world through the public API (slots 0..n-1 hold the models); returns script lines."""
-    b = ScriptBuilder()
-    mslots = [b.model() for _ in world]
+def to_script(world, first_slot=0, reuse_model0=None, with_next=False):
+    """Build every model of the world through the public API; returns script lines (with_next: (lines, next free slot)).
+
+    first_slot: slots are allocated from here (the models of the world come first, model 0 in slot `first_slot`).
+    reuse_model0: slot of an EXISTING Model object that becomes model 0: it is emptied (components, units, ids) and
+    rebuilt in place — the same C++ Model object then holds the new content ("the same model after an edit")."""
+    b = ScriptBuilder(first_slot=first_slot)
+    if reuse_model0 is None:
+        mslots = [b.model() for _ in world]
+    else:
+        mslots = [reuse_model0] + [b.model() for _ in world[1:]]
+        b.cmd("removeallcomponents", reuse_model0)
+        b.cmd("removeallunits", reuse_model0)
+        b.cmd("removename", reuse_model0)
+        b.cmd("removeid", reuse_model0)
+        b.cmd("removeencapsulationid", reuse_model0)
     isrc_slots = {}
 
     def isrc_slot(s):
@@ -331,7 +343,7 @@ def to_script(world):
                 if r.rv_id != "":
                     b.cmd("setresetvalueid", rs, S(r.rv_id))
                 b.cmd("addreset", cslot[id(c)], rs)
-    return b.lines
+    return (b.lines, b.next_slot) if with_next else b.lines
 
 
 def add_equivalence(m, a, b, map_id="", conn_id=""):
@@ -635,8 +647,17 @@ class Gen:
             if v.eqs:
                 g = find(v.tag)
                 if g not in set_units:
-                    set_units[g] = r.choice(["second", "volt", "dimensionless"] + local_defined)
-                v.units = set_units[g]
+                    base = r.choice(["second", "volt", "dimensionless"] + local_defined)
+                    names = [base]
+                    if r.random() < 0.45:
+                        # a second units of the same dimension under another name: the members of the set mix the two
+                        alias = Units(self.ident(utaken, STANDARD_UNITS), self.maybe_id(), None,
+                                      [Item(base, r.choice(["", "milli", "kilo", "3"]), (1, 1), (r.choice([0, 3]), 1))])
+                        m.units.append(alias)
+                        units_names.append(alias.name)
+                        names.append(alias.name)
+                    set_units[g] = names
+                v.units = r.choice(set_units[g])
         # interfaces
         for c in real:
             for v in c.vars:
@@ -1532,6 +1553,13 @@ def f_units_incompatible(w, r, g):
         return None
     c, v = p
     other = m.var(v.eqs[0].to)
+    mine = [u for u in m.units if u.name == v.units and u.imp is None and u.items]
+    if other.units != v.units and mine and r.random() < 0.6:
+        # same names, another definition: the units of this side gets a further base unit
+        used_elsewhere = any(x.units == v.units and x.eqs and x is not v for x in m.all_vars())
+        if not used_elsewhere:
+            mine[0].items.append(Item("candela", "", (r.choice([1, 2]), 1)))
+            return {"where": "equivalence/units-redefined/" + vclass(m, c, v), "cite": ["MAP_VARIABLES_ELEMENT"]}
     base = {"second": "metre", "volt": "second", "dimensionless": "kilogram"}
     if other.units in base:
         v.units = base[other.units]
@@ -1675,3 +1703,95 @@ def f_lib_comp(w, r, g):
 
 
 FAULTS += [("imported-units-content", f_lib_units), ("imported-component-content", f_lib_comp)]
+
+
+# ----------------------------------------------------------------------------------------------- sequences (one Validator)
+
+def near_copy(world, rng):
+    """same names, other definitions: every local units of model 0 that has unit children may get a further base unit or
+    lose its prefixes; variables, components, equivalences are untouched.  (Not necessarily valid: the model says.)"""
+    w = copy.deepcopy(world)
+    changed = 0
+    for u in w[0].units:
+        if u.imp is None and u.items and rng.random() < 0.7:
+            if rng.random() < 0.7:
+                u.items.append(Item(rng.choice(["candela", "mole", "kelvin"]), "", (rng.choice([1, -1, 2]), 1)))
+            else:
+                u.items[0].exp = (u.items[0].exp[0] + 1, u.items[0].exp[1])
+            changed += 1
+    return w, changed
+
+
+# ----------------------------------------------------------------------------------------------- numbers
+
+NUM_REPS = ["", "-", "12", "-3", ".", "-.", "1.5", ".5", "5.", "-.5", "1e", "1E", "1e+", "1e-", "1e5", "1.5E-2", "1E+05", "0", "007"]
+NUM_CHARS = ["+", "-", ".", "e", "E", "7", " ", "\t", "x", "f", ",", "_", "\u0663", "\uff11", "\u00a0"]
+NUM_SPECIALS = ["0x10", "0X1F", "1f", "inf", "-inf", "Infinity", "nan", "NaN", "1e1.5", "1.e5", ".e5", "1..2", "1.2.3", "--1", "-+1", "+-1",
+                "++1", "1e++5", "1e5e2", "1E5E2", "1 2", "1e 5", "1 e5", "1e5 ", " 1e5", "\n1", "1\n", "+1.0", "+.5", "+1.5e3", "+2.5", "+3", "-0",
+                "-0.0", "00", "1e-0", "1e+0", "9" * 25, "2147483647", "2147483648", "-2147483648", "-2147483649", "+2147483647",
+                "99999999999", "-99999999999", "1e99999999999", "\u0661\u0662", "1\u0660", "\uff0b1", "\u22121", "1\u00b2", "e", "E5", "e5", "-e5", ".e", "1ee5"]
+
+
+def num_candidates():
+    """near-miss and boundary number strings: every prefix that stands for a state of the real / integer automata of C16,
+    extended by one character on either side, plus special shapes"""
+    out = []
+    for p in NUM_REPS:
+        out.append(p)
+        for ch in NUM_CHARS:
+            out.append(p + ch)
+            out.append(ch + p)
+    out += NUM_SPECIALS
+    seen = set()
+    res = []
+    for x in out:
+        if x not in seen:
+            seen.add(x)
+            res.append(x)
+    return res
+
+
+_WS = " \t\n\v\f\r"
+INT32 = (-2 ** 31, 2 ** 31 - 1)
+
+
+def num_expected(pos, s, dfa, var_names=()):
+    """True when the position accepts the text.  dfa(s) -> (real_dfa, int_dfa) of LC.NumDefs (proved equal to the grammar)."""
+    t = s.strip(_WS)
+    if pos == "initial":
+        return s == "" or s in var_names or dfa(s)[0]
+    if pos in ("cn", "mantissa"):
+        return dfa(t)[0] and "e" not in t and "E" not in t
+    if pos == "exponent":
+        return dfa(t)[1] and INT32[0] <= int(t) <= INT32[1]
+    if pos == "prefix":
+        return s == "" or s in PREFIXES or (dfa(s)[1] and INT32[0] <= int(s) <= INT32[1])
+    raise ValueError(pos)
+
+
+NUM_RULE = {"initial": "VARIABLE_INITIAL_VALUE_VALUE", "cn": "MATH_CN_FORMAT", "mantissa": "MATH_CN_FORMAT",
+            "exponent": "MATH_CN_FORMAT", "prefix": "UNIT_ATTRIBUTE_PREFIX_VALUE"}
+
+
+def number_world(pos, s):
+    """a small valid world whose one number in position pos is the text s"""
+    m = Model("numbers")
+    u = Units("uu", "", None, [Item("metre", s if pos == "prefix" else "milli")])
+    m.units = [u]
+    c = Comp(1, "c")
+    x, y = Var(2, "x", "uu"), Var(3, "y", "second")
+    if pos == "initial":
+        x.init = s
+    c.vars = [x, y]
+    un = [(CELLML_NS, "units", "second")]
+    if pos == "cn":
+        rhs = E("cn", [T(s)] if s != "" else [], un)
+    elif pos == "mantissa":
+        rhs = E("cn", ([T(s)] if s != "" else []) + [E("sep"), T("3")], un + [("", "type", "e-notation")])
+    elif pos == "exponent":
+        rhs = E("cn", [T("2.5"), E("sep")] + ([T(s)] if s != "" else []), un + [("", "type", "e-notation")])
+    else:
+        rhs = E("cn", [T("1")], un)
+    c.math = [E("math", [E("apply", [E("eq"), E("ci", [T("y")]), rhs])])]
+    m.comps = [c]
+    return [m]
